@@ -223,7 +223,10 @@ let gen_schedule (cfg : sstate wconfig) (w0 : mworld) (rng : Random.State.t) (o 
            if !committed = None && probeable <> [] && !probes < o.max_probes
               && Random.State.int rng 100 < o.probe_pct then begin
              let t = List.nth probeable (Random.State.int rng (List.length probeable)) in
-             emit (Printf.sprintf "P %d blocked" t);
+             (* now and then a long probe of a blocking send: a wait that gives up after a while
+                (a blocking call replaced by one with a time-out) only shows after that while *)
+             let long = label_of !w t = "chan.send" && Random.State.int rng 100 < 12 in
+             emit (Printf.sprintf "P %d %s" t (if long then "blocked-long" else "blocked"));
              committed := Some t; incr probes
            end else begin
              let own = List.filter (fun t -> t >= 100) en in
